@@ -64,7 +64,10 @@ def build_inventory(forest):
             par = getattr(node, '_parent', None)
             if mm == m and q.count('.') == 1 and isinstance(par, ast.FunctionDef) and isinstance(getattr(par, '_parent', None), ast.Module):
                 nested[q] = [_skeleton(st, _fn_locals(node))[0] for st in _flat_statements(node)]
+        class_skel = {st.name: [_skeleton(x, ())[0] for x in _flat_statements(st)] for st in tree.body if isinstance(st, ast.ClassDef)}
         inv[m] = {'locals': reference_names(forest).get(m, {}),
+                  'params': {q: sorted(_params(node)) for (mm, q, node) in forest.functions() if mm == m},
+                  'class_skel': class_skel,
                   'values': values,
                   'nested': nested,
                   'functions': sorted(q for (mm, q, node) in forest.functions() if mm == m),
@@ -680,20 +683,31 @@ def _private_renames(tree, minv):
     defined = set(cur_fns) | assigned | classes
     miss_f = sorted(q for q in ref_fns if q.startswith('_') and not q.startswith('__') and q not in defined and q in ref_locals)
     miss_c = sorted(n for n in ref_names if n.startswith('_') and not n.startswith('__') and n not in defined and n in ref_values)
-    if not miss_f and not miss_c:
+    ref_cls = minv.get('class_skel', {})
+    cur_cls = {st.name: st for st in tree.body if isinstance(st, ast.ClassDef)}
+    miss_k = sorted(n for n in ref_cls if n.startswith('_') and not n.startswith('__') and n not in defined)
+    if not miss_f and not miss_c and not miss_k:
         return {}
     new_f = sorted(n for n in cur_fns if n not in ref_fns and n not in ref_names)
     new_c = sorted(n for n in cur_vals if n not in ref_names and n not in ref_fns)
     used = _identifiers(tree)
-    volatile = set(miss_f) | set(miss_c) | set(new_f) | set(new_c)
+    new_k = sorted(n for n in cur_cls if n not in ref_cls and n not in ref_names and n not in ref_fns)
+    volatile = set(miss_f) | set(miss_c) | set(new_f) | set(new_c) | set(miss_k) | set(new_k)
     pairs = []
+    for m in miss_k:
+        if m in used:
+            continue
+        a = [_blank(x, volatile) for x in ref_cls[m]]
+        for n in new_k:
+            b = [_blank(_skeleton(x, ())[0], volatile) for x in _flat_statements(cur_cls[n])]
+            pairs.append((_sim(a, b), m, n))
     for m in miss_f:
         if m in used:
             continue            # the reference name now denotes something else
-        a = [_blank(x[0], volatile) for x in ref_locals[m]]
+        a = [_blank(x[0], volatile | set(minv.get('params', {}).get(m, ()))) for x in ref_locals[m]]
         for n in new_f:
             fn = cur_fns[n]
-            b = [_blank(_skeleton(st, _fn_locals(fn))[0], volatile) for st in _flat_statements(fn)]
+            b = [_blank(_skeleton(st, _fn_locals(fn) | _params(fn))[0], volatile) for st in _flat_statements(fn)]
             r = difflib.SequenceMatcher(a=a, b=b, autojunk=False).ratio()
             if not a and not b:
                 r = 1.0
@@ -710,7 +724,7 @@ def _private_renames(tree, minv):
     only_f = len(miss_f) == 1 and len(new_f) == 1
     only_c = len(miss_c) == 1 and len(new_c) == 1
     for r, m, n in sorted(pairs, key=lambda t: (-t[0], t[1], t[2])):
-        lone = (only_f and m in miss_f) or (only_c and m in miss_c)
+        lone = (only_f and m in miss_f) or (only_c and m in miss_c) or (len(miss_k) == 1 and len(new_k) == 1 and m in miss_k)
         if r < (0.2 if lone else 0.4) or m in taken or n in mapping:
             continue
         mapping[n] = m
@@ -842,14 +856,14 @@ def _renest(tree, minv):
             continue
         loaded = {n.id for n in ast.walk(outer) if isinstance(n, ast.Name)}
         scope = _own_scope(outer)
-        a = [_blank(x, volatile) for x in ref]
+        a = [_blank(x, volatile | set(minv.get('params', {}).get(q, ()))) for x in ref]
         cands = []
         for name, fn in new_top.items():
             if name not in loaded or name in scope:
                 continue
             if _maybe_free(fn) & (scope | {inner}):
                 continue
-            b = [_blank(_skeleton(st, _fn_locals(fn))[0], volatile) for st in _flat_statements(fn)]
+            b = [_blank(_skeleton(st, _fn_locals(fn) | _params(fn))[0], volatile) for st in _flat_statements(fn)]
             cands.append((_sim(a, b), name))
         for r, name in cands:
             pairs.append((r, q, name, len(cands)))
@@ -878,7 +892,7 @@ def _renest(tree, minv):
         for m in miss:
             if m in used:
                 continue
-            a = [_blank(x[0], volatile | set(miss)) for x in ref_locals[m]]
+            a = [_blank(x[0], volatile | set(miss) | set(minv.get('params', {}).get(m, ()))) for x in ref_locals[m]]
             for oname, outer in top.items():
                 scope = _own_scope(outer)
                 for st in outer.body:
@@ -886,7 +900,7 @@ def _renest(tree, minv):
                         continue
                     if _maybe_free(st) & (scope - {st.name}):
                         continue
-                    b = [_blank(_skeleton(x, _fn_locals(st))[0], volatile | set(miss)) for x in _flat_statements(st)]
+                    b = [_blank(_skeleton(x, _fn_locals(st) | _params(st))[0], volatile | set(miss)) for x in _flat_statements(st)]
                     pairs.append((_sim(a, b), m, oname, st))
         taken_m, taken_s = set(), set()
         for r, m, oname, st in sorted(pairs, key=lambda t: (-t[0], t[1], t[2])):
